@@ -25,7 +25,9 @@ XSD = '''<xs:schema xmlns:xs="http://www.w3.org/2001/XMLSchema" targetNamespace=
  <xs:element name="sub" type="t:sec" minOccurs="0" maxOccurs="unbounded"/>
  <xs:any namespace="##other" processContents="lax" minOccurs="0" maxOccurs="unbounded"/>
 </xs:sequence><xs:attribute name="code" type="xs:string"/></xs:complexType>
-<xs:element name="root"><xs:complexType><xs:sequence><xs:element name="s" type="t:sec" maxOccurs="unbounded"/></xs:sequence></xs:complexType>
+<xs:element name="root"><xs:complexType><xs:sequence><xs:element name="s" type="t:sec" maxOccurs="unbounded"/></xs:sequence>
+  <xs:attribute name="default" type="xs:int"/></xs:complexType>
+ <xs:keyref name="RD" refer="t:K"><xs:selector xpath="."/><xs:field xpath="@default"/></xs:keyref>
  <xs:key name="K"><xs:selector xpath="t:s/t:item"/><xs:field xpath="@n"/></xs:key>
  <xs:keyref name="R" refer="t:K"><xs:selector xpath="t:s/t:link"/><xs:field xpath="@to"/></xs:keyref>
  <xs:unique name="U"><xs:selector xpath="t:s"/><xs:field xpath="@code"/></xs:unique>
@@ -75,7 +77,10 @@ def gen_doc(rng, big=False, faults=True):
             kids.append({'tag': 'o:x', 'attrs': {}, 'text': 'w', 'decls': [(9, 3)], 'kids': []})
         a = {'code': 'c%d' % rng.randint(1, 4 if faults else 1000)} if rng.random() < 0.6 else {}
         return {'tag': tag, 'attrs': a, 'text': None, 'decls': decls(), 'kids': kids}
-    return {'tag': 'root', 'attrs': {}, 'text': None, 'decls': [], 'kids': [sec('s', 0) for _ in range(rng.randint(1, 25 if big else 4))]}
+    kids = [sec('s', 0) for _ in range(rng.randint(1, 25 if big else 4))]
+    # a key reference held by the root itself (selector "."): processed after all the streamed chunks
+    rattrs = {'default': str(rng.randint(1, 12) if faults else 1)} if rng.random() < 0.5 else {}
+    return {'tag': 'root', 'attrs': rattrs, 'text': None, 'decls': [], 'kids': kids}
 
 
 def ensure_valid_refs(doc):
@@ -83,6 +88,11 @@ def ensure_valid_refs(doc):
     items = [n for _a, n in nodes(doc) if n['tag'] == 'item']
     top_items = [k for s in doc['kids'] for k in s['kids'] if k['tag'] == 'item']
     ids = [n['attrs']['id'] for n in items if 'id' in n['attrs']]
+    if 'default' in doc['attrs']:
+        if top_items:
+            doc['attrs']['default'] = top_items[0]['attrs']['n']
+        else:
+            del doc['attrs']['default']
     for _a, n in nodes(doc):
         if n['tag'] == 'link':
             if 'to' in n['attrs']:
